@@ -16,6 +16,7 @@ import (
 // extra sim state used by the event generator
 type simExtra struct {
 	usedZero      bool
+	usedEmpty     bool
 	lastDesc      string
 	lastEditClass string
 	everOpen      bool
@@ -181,6 +182,10 @@ func (s *sim) newID() any {
 	if !s.usedZero && s.src.Intn(30, "c18.idzero") == 29 {
 		s.usedZero = true
 		return 0 // a legal id that is "falsy" in many languages
+	}
+	if !s.usedEmpty && s.src.Intn(40, "c18.idempty") == 39 {
+		s.usedEmpty = true
+		return "" // the empty string is a legal id too
 	}
 	switch s.src.Intn(5, "c18.idkind") {
 	case 1:
